@@ -8,6 +8,7 @@ Generic table/trace flow (tablecheck.table_check) with two family-specific touch
 """
 import json, os, time
 from tablecheck import table_check
+import vcheck
 from vcheck import VERIF, WORK
 
 WATCH = ["Agreement", "RankedStartsWithOwner", "RankedIsPermutation", "MinimalDisruption", "ServedByOne"]
